@@ -47,6 +47,9 @@ def plan(tier, seed):
     nw4 = 2 if tier == 'quick' else 6
     for i in range(nw4):
         shards.append({'name': 'w4_%d' % i, 'kind': 'w4', 'combos': w4[i::nw4], 'seed': seed * 1000 + 240 + i})
+    shards.append({'name': 'ambig', 'kind': 'ambig', 'n': 40 if tier == 'quick' else 500, 'seed': seed * 1000 + 248})
+    shards.append({'name': 'w5', 'kind': 'w5', 'N': 6 if tier == 'quick' else 9,
+                   'n': 12 if tier == 'quick' else 150, 'seed': seed * 1000 + 247})
     shards.append({'name': 'person', 'kind': 'data', 'data': 'person', 'n': 30 if tier == 'quick' else 200,
                    'seed': seed * 1000 + 232})
     shards.append({'name': 'books_a', 'kind': 'data', 'data': 'books', 'rows': 400 if tier == 'quick' else 1200,
@@ -125,8 +128,10 @@ def transposed(call):
     return c
 
 
-def check_laws(ssj, rec, case, call, t_lax, t_strict):
-    """call: join call without threshold/comp_op decided; returns number of non-trivial pairs."""
+def check_laws(ssj, rec, case, call, t_lax, t_strict, with_score=True):
+    """call: join call without threshold/comp_op decided; returns number of non-trivial pairs.
+    with_score=False runs every join without the _sim_score column (transposition and operator
+    partition on the key pairs; refinement needs the scores and is skipped)."""
     measure = T.JOIN_MEASURE[call['api']]
     ed = measure == 'EDIT_DISTANCE'
     ge, gt, eq = ('<=', '<', '=') if ed else ('>=', '>', '=')
@@ -134,7 +139,7 @@ def check_laws(ssj, rec, case, call, t_lax, t_strict):
     lazy = LazyClass(call)
     tag = '%s ' % call['api']
     base = dict(call, threshold=t_lax, comp_op=ge, l_out_attrs=None, r_out_attrs=None,
-                out_sim_score=True)
+                out_sim_score=bool(with_score))
     base.pop('l_out_prefix', None)
     base.pop('r_out_prefix', None)
     d_lax = run_join(ssj, rec, base)
@@ -157,7 +162,7 @@ def check_laws(ssj, rec, case, call, t_lax, t_strict):
                               'tables %r' % (ge, t_lax, k, K_lax.get(k), K_tr.get(k)), case=case)
     # ---- threshold refinement
     strict = dict(base, threshold=t_strict)
-    d_strict = run_join(ssj, rec, strict)
+    d_strict = run_join(ssj, rec, strict) if with_score else None
     if d_strict is not None:
         K_strict = keymap(d_strict, strict)
         exp = dict((k, v) for k, v in K_lax.items()
@@ -254,10 +259,36 @@ def exact_case(case, rec, ssj):
     return {'nontrivial': nt, 'call': call, 't': (t * 0.7, t)}
 
 
+def w5_case(case, rec, ssj):
+    """The laws on the rare-shared-token tables at an attained score, with and without the score
+    column (a shortcut that skips verification may depend on whether the score is requested)."""
+    m, t = case['measure'], case['threshold']
+    L, R, groups = gen.rare_shared_tables(case['N'])
+    call = {'api': T.MEASURE_JOIN[m], 'ltable': L, 'rtable': R, 'l_key': 'id', 'r_key': 'id',
+            'l_attr': 's', 'r_attr': 's', 'tok': {'kind': 'ws', 'return_set': True},
+            'allow_missing': False, 'n_jobs': case.get('n_jobs', 1)}
+    nt = check_laws(ssj, rec, dict(case), call, t, min(1.0, t + 0.1), with_score=case['with_score'])
+    rec.count('nontrivial_pairs', nt)
+    rec.count('w5_cases')
+    return {'nontrivial': nt, 'call': call, 't': (t, min(1.0, t + 0.1))}
+
+
 def run_case(case, rec, ssj=None, data=None):
     ssj = ssj or env.load()
     if case['gen'] == 'tight':
         return tight_case(case, rec, ssj)
+    if case['gen'] == 'w5':
+        return w5_case(case, rec, ssj)
+    if case['gen'] == 'ambig':
+        rng = random.Random(case['seed'])
+        L, R, tok = gen.ambiguous_tables(rng)
+        api = rng.choice(['jaccard_join', 'cosine_join', 'dice_join', 'overlap_coefficient_join'])
+        call = {'api': api, 'ltable': L, 'rtable': R, 'l_key': 'lid', 'r_key': 'rid', 'l_attr': 'lattr',
+                'r_attr': 'rattr', 'tok': tok, 'allow_missing': False, 'n_jobs': rng.choice([1, 2])}
+        t_strict = rng.choice([1.0, 1.0, 1, 0.9999, 0.75])
+        nt = check_laws(ssj, rec, dict(case, t_attained=1.0), call, rng.choice([0.2, 0.3, 0.5]), t_strict)
+        rec.count('nontrivial_pairs', nt)
+        return {'nontrivial': nt, 'call': call, 't': (0.2, t_strict)}
     if case['gen'] == 'w4':
         return exact_case(case, rec, ssj)
     rng = random.Random(case['seed'])
@@ -360,6 +391,27 @@ def run_shard(shard, rec):
             rec.case(sig=('tight', m, t, shard['N']), nontrivial=st['nontrivial'] > 0, n=7)
             rec.add('api', st['call']['api'])
         rec.sample({'workload': 'tight tables', 'N': shard['N'], 'combos': shard['combos'][:3]}, limit=1)
+        shard = dict(shard, n=0)
+    if shard['kind'] == 'ambig':
+        for i in range(shard['n']):
+            case = {'gen': 'ambig', 'seed': shard['seed'] * 100000 + i}
+            st = run_case(case, rec, ssj)
+            rec.case(sig=('ambig', case['seed']), nontrivial=st['nontrivial'] > 0, n=7)
+            rec.add('api', st['call']['api'])
+        rec.sample({'workload': 'ambiguous token sets (comma tokenizer, tokens with blanks)',
+                    'left_values': T.column(st['call']['ltable'], 'lattr')[:4]}, limit=1)
+        shard = dict(shard, n=0)
+    if shard['kind'] == 'w5':
+        rng = random.Random(shard['seed'])
+        for m in ('JACCARD', 'COSINE', 'DICE', 'OVERLAP_COEFFICIENT'):
+            for i, t in enumerate(gen.near_score_thresholds(m, shard['N'], rng, shard['n'])):
+                case = {'gen': 'w5', 'N': shard['N'], 'measure': m, 'threshold': t, 'with_score': i % 2 == 0,
+                        'n_jobs': 1 + i % 2}
+                st = w5_case(case, rec, ssj)
+                rec.case(sig=('w5', m, t, case['with_score']), nontrivial=st['nontrivial'] > 0, n=6)
+                rec.add('api', st['call']['api'])
+        rec.sample({'workload': 'W5 rare shared tokens, laws with and without the score column',
+                    'N': shard['N']}, limit=1)
         shard = dict(shard, n=0)
     if shard['kind'] == 'w4':
         for i, (m, t, _op) in enumerate(shard['combos']):
